@@ -167,6 +167,8 @@ impl CheckedBackend {
 
     fn len(&self) -> Result<u64> {
         self.check_failure()?;
+        #[cfg(redb_verif)]
+        crate::verif::point("checked.before_call", &[]);
         let result = self.file.len();
         if result.is_err() {
             self.io_failed.store(true, Ordering::Release);
@@ -176,6 +178,8 @@ impl CheckedBackend {
 
     fn read(&self, offset: u64, out: &mut [u8]) -> Result<()> {
         self.check_failure()?;
+        #[cfg(redb_verif)]
+        crate::verif::point("checked.before_call", &[]);
         let result = self.file.read(offset, out);
         if result.is_err() {
             self.io_failed.store(true, Ordering::Release);
@@ -185,6 +189,8 @@ impl CheckedBackend {
 
     fn set_len(&self, len: u64) -> Result<()> {
         self.check_failure()?;
+        #[cfg(redb_verif)]
+        crate::verif::point("checked.before_call", &[]);
         let result = self.file.set_len(len);
         if result.is_err() {
             self.io_failed.store(true, Ordering::Release);
@@ -194,6 +200,8 @@ impl CheckedBackend {
 
     fn sync_data(&self) -> Result<()> {
         self.check_failure()?;
+        #[cfg(redb_verif)]
+        crate::verif::point("checked.before_call", &[]);
         let result = self.file.sync_data();
         if result.is_err() {
             self.io_failed.store(true, Ordering::Release);
@@ -203,6 +211,8 @@ impl CheckedBackend {
 
     fn write(&self, offset: u64, data: &[u8]) -> Result<()> {
         self.check_failure()?;
+        #[cfg(redb_verif)]
+        crate::verif::point("checked.before_call", &[]);
         let result = self.file.write(offset, data);
         if result.is_err() {
             self.io_failed.store(true, Ordering::Release);
@@ -215,6 +225,8 @@ impl CheckedBackend {
     // over data that nothing was waiting on.
     fn write_best_effort(&self, offset: u64, data: &[u8]) -> Result<()> {
         self.check_failure()?;
+        #[cfg(redb_verif)]
+        crate::verif::point("checked.before_call", &[]);
         self.file.write(offset, data).map_err(StorageError::from)
     }
 }
